@@ -10,7 +10,7 @@ pub(crate) mod testing;
 
 use std::collections::{HashMap, HashSet};
 use std::fs::File;
-use std::io::{BufRead, BufReader};
+use std::io::Read;
 use std::path;
 use std::result::Result;
 use std::str::FromStr;
@@ -101,21 +101,24 @@ pub(crate) struct Config {
 }
 impl Config {
     pub(crate) fn new(file_path: &path::Path) -> Result<Config, MonorailError> {
-        let file = File::open(file_path).map_err(|e| {
+        let mut file = File::open(file_path).map_err(|e| {
             MonorailError::Generic(format!(
                 "Could not open configuration file at {}; {}",
                 file_path.display(),
                 e
             ))
         })?;
-        let mut buf_reader = BufReader::new(file);
-        let buf = buf_reader.fill_buf().map_err(|e| {
+        // Read the whole file: the checksum and the parsed configuration must
+        // cover every byte of it, whatever its size.
+        let mut data = Vec::new();
+        file.read_to_end(&mut data).map_err(|e| {
             MonorailError::Generic(format!(
                 "Could not read configuration file data at {}; {}",
                 file_path.display(),
                 e
             ))
         })?;
+        let buf = data.as_slice();
         let mut hasher = sha2::Sha256::new();
         hasher.update(buf);
 
